@@ -66,6 +66,48 @@ def signalTablesOK : Bool :=
   RetryCfg.onErrorTable.length == 4 && RetryCfg.signalErrTable.length == 4 &&
   RetryCfg.retryableAccessors == [("Error", "Err.Error()"), ("Unwrap", "Err"), ("Data", "Value")]
 
+/-! ## one iteration of `retrySender.Send` against the regenerated decision chain (`RetryCfg.retryStep`) -/
+
+def optI (o : Option Nat) : Option Int := o.map (fun n => (n : Int))
+
+/-- the inputs of the iteration as the model supplies them: the attempt `a` returned at `fin` (ns since `Send` was entered, so
+`maxElapsedTime` = `MaxElapsedTime` itself), the library's `currentInterval` is `cur`.  `backoff.Stop = -1` -/
+def stepInOf (c : Cfg) (e : Env) (cur fin : Nat) (a : Attempt) : RetryCfg.StepIn :=
+  { errNil := a.ok, permanent := a.perm, hasErrorHandler := true, throttle := optI a.throttle,
+    backoff := (backoffDelay c (curInterval c cur) a : Nat), backoffStop := -1, now := (fin : Nat),
+    maxElapsed := if c.maxElapsed > 0 then some (c.maxElapsed : Int) else none, deadline := optI e.deadline,
+    stopClosed := ole e.shutdown fin, ctxErr := ole e.ctxDone fin }
+
+/-- the four checks of `afterFailure` that come BEFORE the blocking select (budget, deadline, poll of `stopCh`, poll of `ctx.Err()`) -/
+def preSelect (c : Cfg) (e : Env) (fin w : Nat) : Option (Reason × Nat) :=
+  if c.maxElapsed > 0 ∧ c.maxElapsed < fin + w then some (.exhausted, fin)
+  else if olt e.deadline (fin + w) then some (.deadline, fin)
+  else if ole e.shutdown fin then some (.shutdown, fin)
+  else if ole e.ctxDone fin then some (.cancelled, fin)
+  else none
+
+/-- the blocking select of `afterFailure` -/
+def blockingSelect (e : Env) (fin w : Nat) : Option (Reason × Nat) :=
+  match e.shutdown, e.ctxDone with
+  | some s, some d => if s < fin + w ∧ s ≤ d then some (.shutdown, s) else if d < fin + w then some (.cancelled, d) else none
+  | some s, none => if s < fin + w then some (.shutdown, s) else none
+  | none, some d => if d < fin + w then some (.cancelled, d) else none
+  | none, none => none
+
+/-- a pre-select verdict of the model as the Go return it stands for -/
+def stepOutOf (w : Nat) : Option (Reason × Nat) → RetryCfg.StepOut
+  | some (.exhausted, _) => .retWrap "no more retries left"
+  | some (.deadline, _) => .retWrap "request will be cancelled before next retry"
+  | some (.shutdown, _) => .retShutdown
+  | some (.cancelled, _) => .retWrap "request is cancelled or timed out"
+  | _ => .wait (w : Int) true
+
+/-- the model's iteration in the vocabulary of the regenerated step function -/
+def modelStep (c : Cfg) (e : Env) (cur fin : Nat) (a : Attempt) : RetryCfg.StepOut :=
+  if a.ok then .retNil
+  else if a.perm then .retWrap "not retryable error"
+  else stepOutOf (waitOf c (curInterval c cur) a) (preSelect c e fin (waitOf c (curInterval c cur) a))
+
 /-! ## the library's random draw -/
 
 /-- `getRandomValueFromInterval(rf, random, iv)` of cenkalti/backoff/v5 over exact fractions (`random = rn/rd ∈ [0,1)`):
